@@ -857,6 +857,14 @@ class IsoHybrid:
         padding = 0
         if frac > 0:
             padding = cylsize - frac
+        if self.efi:
+            # The backup GPT (partition entries followed by the header) is
+            # written at the very end of the padded image, so the padding has
+            # to be large enough to hold it; otherwise it would overwrite the
+            # end of the ISO itself.
+            backup_gpt_size = self.secondary_gpt.header.num_parts * 128 + 512
+            while padding < backup_gpt_size:
+                padding += cylsize
         cc = min((iso_size + padding) // cylsize, 1024)
 
         return (cc, padding)
